@@ -65,7 +65,7 @@ def r1_writer_side(cx, classes):
     # cleans empty only if no_redact and all obfuscations disabled and not filterable
     ret = [r for r in walk_body(cc.body) if isinstance(r, ast.Return)]
     res = [a for a in walk_body(cc.body) if isinstance(a, ast.Assign) and U(a.targets[0]) == "content" and isinstance(a.value, ast.Call) and a.value is call]
-    cx.require(len(ret) == 1 and U(ret[0].value) == "content" and len(res) == 1, ret[0] if ret else cc, "the cleaned result replaces the content that is returned",
+    cx.require(bool(ret) and all(U(r.value) == "content" for r in ret) and len(res) == 1 and any(r.lineno > res[0].lineno for r in ret), ret[0] if ret else cc, "the cleaned result replaces the content that is returned",
                construct="content = self.cleaner.clean_content(...); return content")
     ap = [x for x in find_calls(cc.body, attr="append") if U(x.func.value) == "cleans"]
     conds = sorted(U(parent(x).test) if isinstance(parent(x), ast.IfExp) else str(sorted(guard_texts(x) - allowed)) for x in ap)
@@ -158,12 +158,20 @@ def r2_pipeline(cx):
     for lp in loops:
         it = U(lp.iter)
         tv = U(lp.target)
-        over_all = "self.obfuscate.keys()" in it or it.replace(" ", "") in ("self.obfuscate",) or "self.obfuscate)" in it
+        over_all = "self.obfuscate.keys()" in it or "set(self.obfuscate)" in it or it.replace(" ", "") in ("self.obfuscate",)
         minus = "no_obfuscate" in it
         cx.require(over_all and minus and ("DEFAULT_OBFUSCATIONS" not in it), lp, "the loop ranges over all keys of self.obfuscate minus the datasource's no_obfuscate list",
-                   construct="for %s in %s" % (tv, it))
+                   construct="for %s in %s" % (tv, short(it, 120)))
         ap = [x for x in find_calls(lp.body, attr="append") if U(x.func.value) == "parsers"]
-        ok = len(ap) == 1 and set(guard_texts(ap[0], stop=lp)) == set([("self.obfuscate[%s]" % tv, True)]) and ("self.obfuscate[%s]" % tv) in U(ap[0].args[0]) and not has_exit(lp.body)
+        ok = False
+        if len(ap) == 1 and not has_exit(lp.body):
+            g = set(guard_texts(ap[0], stop=lp))
+            if g == set([("self.obfuscate[%s]" % tv, True)]) and ("self.obfuscate[%s]" % tv) in U(ap[0].args[0]):
+                ok = True      # for name in <names>: if self.obfuscate[name]: parsers.append((self.obfuscate[name], ...))
+            elif not g and isinstance(lp.iter, (ast.ListComp, ast.GeneratorExp)) and tv in U(ap[0].args[0]):
+                comp = lp.iter
+                nv = U(comp.generators[0].target)
+                ok = len(comp.generators) == 1 and U(comp.elt) == "self.obfuscate[%s]" % nv and [U(c) for c in comp.generators[0].ifs] == ["self.obfuscate[%s]" % nv]
         cx.require(ok, ap[0] if ap else lp, "every such obfuscator that is configured (truthy) is appended, no other condition, no early exit",
                    construct=short(ap[0]) if ap else "(no append)")
     cl = [n for n in cc.body if isinstance(n, FUNC_TYPES) and n.name == "_clean_line"]
